@@ -630,6 +630,12 @@ func (e *Exec) callFunction(st *State, fn *ssa.Function, args []Value, bind []Va
 	}
 	if len(fn.Blocks) == 0 {
 		if in, ok := e.harnessAPI[fn.Name()]; ok && fn.Pkg != nil && strings.HasPrefix(fn.Name(), "v") {
+			switch fn.Name() {
+			case "vRunSpawned", "vSpawnCount", "vSendCount", "vLocksHeldNow", "vDistinctRandom":
+				if e.h != nil {
+					e.h.EngineOnlyAPI = true
+				}
+			}
 			e.curDepth = depth
 			return in(e, st, fn, args)
 		}
